@@ -455,6 +455,7 @@ type Macro struct {
 type GlobalInv struct {
 	Src string
 	E   Expr
+	Pkg string
 }
 
 type ContractSet struct {
@@ -462,16 +463,17 @@ type ContractSet struct {
 	Macros  map[string]*Macro
 	Globals []*GlobalInv
 	Files   []string
+	Ghost   map[string]string // ghost heap name -> element sort
 }
 
 func newContractSet() *ContractSet {
-	return &ContractSet{ByKey: map[string]*Contract{}, Macros: map[string]*Macro{}}
+	return &ContractSet{ByKey: map[string]*Contract{}, Macros: map[string]*Macro{}, Ghost: map[string]string{}}
 }
 
 var clauseKeywords = map[string]bool{
 	"func": true, "props": true, "requires": true, "ensures": true, "modifies": true,
 	"pure": true, "trusted": true, "maypanic": true, "loop": true, "site": true, "let": true,
-	"define": true, "global": true, "skip": true, "note": true, "package": true, "thorough": true,
+	"define": true, "global": true, "ghost": true, "skip": true, "note": true, "package": true, "thorough": true,
 }
 
 // parseContractFile reads a contract file. pkgPrefix is prepended to function
@@ -598,12 +600,18 @@ func (cs *ContractSet) parseContractFile(path, pkgPath string, goFile bool) erro
 			}
 			m.Body = e
 			cs.Macros[m.Name] = m
+		case "ghost":
+			f := strings.SplitN(rest, " ", 2)
+			if len(f) != 2 {
+				return fail(fmt.Errorf("ghost <name> <sort>"))
+			}
+			cs.Ghost[f[0]] = strings.TrimSpace(f[1])
 		case "global":
 			e, err := parseExpr(rest)
 			if err != nil {
 				return fail(err)
 			}
-			cs.Globals = append(cs.Globals, &GlobalInv{Src: rest, E: e})
+			cs.Globals = append(cs.Globals, &GlobalInv{Src: rest, E: e, Pkg: pkgPath})
 		default:
 			if cur == nil {
 				return fail(fmt.Errorf("clause %q outside func", kw))
